@@ -15,6 +15,20 @@ pub struct C14 {
     truth: Truth,
     /// Last time a keepalive was handed to the socket, per link.
     last_ka: HashMap<u64, u64>,
+    /// The monitor's own "a probe is outstanding": a keepalive was handed to the socket since
+    /// the link's last reset and no echo has come back since. (The implementation arms its flag
+    /// on a subset of the keepalives, so its flag implies this one - never the other way round.)
+    own_outstanding: HashMap<u64, bool>,
+}
+
+fn reset_between(a: &[crate::lsim::LinkView], b: &[crate::lsim::LinkView], reg_err: &[u64]) -> Vec<u64> {
+    a.iter()
+        .filter_map(|va| {
+            let vb = b.iter().find(|x| x.conn_id == va.conn_id)?;
+            let fell = va.connected && !vb.connected && !reg_err.contains(&va.conn_id);
+            (va.fd != vb.fd || va.last_attempt_ms != vb.last_attempt_ms || fell).then_some(va.conn_id)
+        })
+        .collect()
 }
 
 impl C14 {
@@ -25,6 +39,10 @@ impl C14 {
 
 impl Monitor for C14 {
     fn on_step(&mut self, ctx: &StepCtx<'_>, out: &mut MonOut) {
+        let reg_err: Vec<u64> = ctx.uplink.iter().filter(|(_, b)| ptype(b) == Some(super::T_REG_ERR)).map(|(c, _)| *c).collect();
+        for c in reset_between(ctx.pre, ctx.mid, &reg_err) {
+            self.own_outstanding.insert(c, false);
+        }
         // ---- frames on the wire ----
         let mut ka_now: HashMap<u64, u32> = HashMap::new();
         for w in ctx.wire {
@@ -38,6 +56,12 @@ impl Monitor for C14 {
             };
             *ka_now.entry(v.conn_id).or_insert(0) += 1;
             out.probe("c14.keepalive_sent");
+            // a keepalive counts as sent when it is handed to the socket (whatever the socket
+            // answers); one sent before a reset in the same pass does not survive the reset
+            let reset_after = find_view(ctx.mid, v.conn_id).is_none_or(|m| !m.connected || m.fd != v.fd);
+            if !reset_after {
+                self.own_outstanding.insert(v.conn_id, true);
+            }
             let info = rc::keepalive_info(d);
             let expect = rc::KaInfo {
                 conn_id: v.conn_id as u32,
@@ -125,6 +149,22 @@ impl Monitor for C14 {
             let mid = find_view(ctx.mid, pre.conn_id).unwrap_or(pre);
             // for the uplink arm the first datagram is processed in the main action itself
             let mut waiting = if matches!(ctx.kind, StepKind::Uplink) { pre.waiting_ka } else { mid.waiting_ka };
+            // the monitor's own necessary condition: a sample needs a probe on the wire since the
+            // link's last reset that no earlier echo has answered
+            let own_before = self.own_outstanding.get(&pre.conn_id).copied().unwrap_or(false);
+            self.own_outstanding.insert(pre.conn_id, false);
+            if !srt_ack_in_step
+                && !own_before
+                && !reset_in_step(pre.conn_id)
+                && (post.last_rtt_meas_ms != pre.last_rtt_meas_ms || post.kalman_raw != pre.kalman_raw)
+            {
+                out.violate(
+                    &format!("{M}.sampling"),
+                    "sample_without_probe_on_the_wire",
+                    ctx.idx,
+                    format!("link {:x}: an echo produced a round-trip sample although no keepalive has been sent on the link since its last reset / last echo", pre.conn_id),
+                );
+            }
             let mut sampled = 0u32;
             for e in &echoes {
                 out.probe("c14.echo");
@@ -159,7 +199,12 @@ impl Monitor for C14 {
             }
             if !srt_ack_in_step {
                 let changed = post.last_rtt_meas_ms != pre.last_rtt_meas_ms || post.kalman_raw != pre.kalman_raw;
-                if changed != (sampled > 0) || (sampled > 0 && post.last_rtt_meas_ms != ctx.now) {
+                // A second sample in the very millisecond of the previous one (an SRT ACK just
+                // before the echo) with the same value leaves no trace in the observed fields.
+                let unobservable = sampled > 0 && !changed && pre.last_rtt_meas_ms == ctx.now;
+                if unobservable {
+                    out.probe("c14.sample_unobservable_same_ms");
+                } else if changed != (sampled > 0) || (sampled > 0 && post.last_rtt_meas_ms != ctx.now) {
                     out.violate(
                         &format!("{M}.sampling"),
                         if sampled > 0 { "sample_missing" } else { "sample_without_valid_echo" },
@@ -175,6 +220,21 @@ impl Monitor for C14 {
                         ),
                     );
                 }
+            }
+        }
+        for c in reset_between(ctx.mid, ctx.post, &reg_err) {
+            self.own_outstanding.insert(c, false);
+        }
+        // the implementation's flag never claims a probe the wire has not seen
+        for v in ctx.post {
+            if v.waiting_ka && !self.own_outstanding.get(&v.conn_id).copied().unwrap_or(false) {
+                out.violate(
+                    &format!("{M}.sampling"),
+                    "probe_flag_without_probe",
+                    ctx.idx,
+                    format!("link {:x}: the outstanding-probe flag is set although no keepalive has been sent on the link since its last reset / last echo (connected={})", v.conn_id, v.connected),
+                );
+                self.own_outstanding.insert(v.conn_id, true);
             }
         }
         self.truth.update(ctx);
